@@ -1018,6 +1018,13 @@ func Directed(t *rapid.T, want string, ver kmip.ProtocolVersion, o MsgOpts) (msg
 		m.Header.ProtocolVersion = g.Ver
 		n := rapid.IntRange(1, 2).Draw(t, "items")
 		m.Header.BatchCount = int32(n)
+		if lead := discoverLead(t); lead != nil {
+			// a Discover Versions item listing other versions comes first: versions carried as data must not change the gating
+			m.BatchItem = append(m.BatchItem, kmip.ResponseBatchItem{UniqueBatchItemID: g.batchID(n), Operation: kmip.OperationDiscoverVersions,
+				ResponsePayload: &payloads.DiscoverVersionsResponsePayload{ProtocolVersion: lead}})
+			m.Header.BatchCount++
+			g.label("discover-versions-item-first")
+		}
 		for i := 0; i < n; i++ {
 			it := kmip.ResponseBatchItem{UniqueBatchItemID: g.batchID(i), Operation: c.e.Op, ResponsePayload: c.e.Resp()}
 			g.fillPayload(it.ResponsePayload)
@@ -1030,12 +1037,26 @@ func Directed(t *rapid.T, want string, ver kmip.ProtocolVersion, o MsgOpts) (msg
 	m.Header.ProtocolVersion = g.Ver
 	n := rapid.IntRange(1, 2).Draw(t, "items")
 	m.Header.BatchCount = int32(n)
+	if lead := discoverLead(t); lead != nil {
+		m.BatchItem = append(m.BatchItem, kmip.RequestBatchItem{UniqueBatchItemID: g.batchID(n), Operation: kmip.OperationDiscoverVersions,
+			RequestPayload: &payloads.DiscoverVersionsRequestPayload{ProtocolVersion: lead}})
+		m.Header.BatchCount++
+		g.label("discover-versions-item-first")
+	}
 	for i := 0; i < n; i++ {
 		it := kmip.RequestBatchItem{UniqueBatchItemID: g.batchID(i), Operation: c.e.Op, RequestPayload: c.e.Req()}
 		g.fillPayload(it.RequestPayload)
 		m.BatchItem = append(m.BatchItem, it)
 	}
 	return m, true
+}
+
+// discoverLead draws, one time in four, the version list of a leading Discover Versions item.
+func discoverLead(t *rapid.T) []kmip.ProtocolVersion {
+	if rapid.IntRange(0, 3).Draw(t, "discover-lead") != 0 {
+		return nil
+	}
+	return rapid.SliceOfN(rapid.SampledFrom(Versions), 1, 3).Draw(t, "lead-versions")
 }
 
 // CryptoParams draws a fully populated CryptographicParameters (fields of versions 1.0, 1.2 and 1.4).
